@@ -129,7 +129,7 @@ func main() {
 		run.Require("robust_val:"+d.name, 10)
 	}
 	run.Require("rlp_ref_decodes_compared", int64(lib.Pick(2000000, 100000000)))
-	run.Require("rlp_ref_both_accept", 100000)
+	run.Require("rlp_ref_both_accept", int64(lib.Pick(100000, 2000000)))
 	run.Require("rlp_ref_both_reject", 100000)
 	run.Require("rlp_noncanonical:int-leading-zero", 100)
 	run.Require("rlp_noncanonical:single-byte-as-string", 100)
